@@ -166,7 +166,7 @@ def main_shadow(key="plain", **kw):
 
 class EvalUnit(Unit):
     name = "main.eval"
-    props = ("C05", "C07", "C09", "C06", "C20")
+    props = ("C05", "C07", "C09", "C06", "C20", "C02", "C03")
     fmodel = "ORDER"
     functions = [("cobyqa.main", "_eval")]
 
@@ -206,6 +206,10 @@ class EvalUnit(Unit):
         c.oblige("C05.eval.never_beyond_budget", z3.Not(full), props=["C05"])
         c.oblige("C05.eval.exactly_one_evaluation", z3.BoolVal(len(pb.events) == 1), props=["C05", "C06", "C09"])
         c.oblige("C20.eval.penalty_forwarded", z3.BoolVal(pb.events[0][2] is fw.penalty), props=["C20", "C09", "C03"])
+        # Problem.__call__ keeps a reference to the point in its filter / history: the caller must hand over a fresh array, not a
+        # live array of the solver that is later updated in place (x_best is a view of the interpolation set)
+        c.oblige("C02.eval.evaluated_point_is_a_fresh_array", z3.BoolVal(pb.events[0][1] is not fw.x_best and pb.events[0][1] is not step),
+                 props=["C02", "C03", "C05"], note="the filter would alias an array the solver goes on modifying")
         if kind == "exc" and isinstance(res, CallbackSuccess):
             c.oblige("C09.eval.callback_success_only_from_callback", z3.BoolVal(pb.trigger == "callback"), props=["C09", "C07"])
             return
@@ -756,7 +760,7 @@ def models_shadow():
 
 class ModelsInitUnit(Unit):
     name = "models.init_sampling"
-    props = ("C05", "C07", "C09", "C06", "C08", "C12")
+    props = ("C05", "C07", "C09", "C06", "C08", "C12", "C02", "C03")
     fmodel = "ORDER"
     functions = [("cobyqa.models", "Models.__init__")]
     assumptions = ["Interpolation.__init__ and Quadratic.__init__ are contract stubs here (placement of the points: C01.O3; LinAlgError only from "
@@ -800,6 +804,14 @@ class ModelsInitUnit(Unit):
                 v.k = it(k)
                 return v
 
+            @property
+            def x_base(self):
+                # the live base point (updated in place by shift_x_base): same coordinates as point(0) initially, but not fresh
+                v = Vec("x_base")
+                v.k = z3.IntVal(0)
+                v.live = True
+                return v
+
         class quad:
             def __init__(self, interpolation, values, debug):
                 if c.choose("Quadratic", 2, ["ok", "linalg"]):
@@ -817,6 +829,10 @@ class ModelsInitUnit(Unit):
         c.oblige("C12.models_init.evaluations_at_interpolation_points",
                  z3.BoolVal(all(hasattr(e[1], "k") for e in pb.events)), props=["C12", "C01"],
                  note="a value is recorded for an interpolation point but was measured elsewhere")
+        c.oblige("C02.models_init.evaluated_points_are_fresh_arrays", z3.BoolVal(not any(getattr(e[1], "live", False) for e in pb.events)),
+                 props=["C02", "C03", "C05"],
+                 note="Problem.__call__ keeps a reference to the point in its filter / history: a live array of the interpolation set "
+                      "(x_base, shifted in place later) would change the recorded point afterwards")
         c.oblige("C05.models_init.within_budget", z3.And(pb.nev >= 1, pb.nev <= maxfev, pb.nev <= npt), props=P)
         c.oblige("C20.models_init.penalty_forwarded", z3.BoolVal(all(e[2] is penalty for e in pb.events)), props=["C20", "C09"])
         tgt, tol = opts["target"], opts["feasibility_tol"]
